@@ -43,7 +43,7 @@ HEAP_ASSUME = [
 ]
 
 ENGINES = [
-    {"name": "tlc-heap", "path": "spec/Heap.tla spec/HeapGraph.tla bin/heapfam.py harness/heapx harness/cmd/vh/replay.go",
+    {"name": "tlc-heap", "path": "spec/Heap.tla spec/HeapGraph.tla spec/HeapTrace.tla spec/SliceHdr.tla spec/SliceMem.tla spec/SliceTrace.tla bin/heapfam.py harness/heapx harness/cmd/vh/replay.go harness/cmd/vh/drive.go",
      "serves_properties": ["C05", "C06", "C07", "C08", "C09", "C10", "C11", "C13", "C19"],
      "kind_free_text": "explicit TLA+ model of the container heap (operations as actions, allowed outcomes as sets); TLC enumerates the reachable state graph "
                        "and checks the spec-level invariants; the Go replayer executes the graph's behaviours on the real library and compares outcome + whole heap "
@@ -52,7 +52,9 @@ ENGINES = [
 
 HEAP_NOTE = ("Exhaustive only inside the per-config constants (number of containers, list length, key tokens, argument values) recorded in the evidence; "
              "longer histories are seeded random walks of the same graph. Trusted: TLC, the replayer's projection of the real heap, the concretisation tables.")
-HEAP_TECH = "TLA+ heap model (Heap.tla) explored by TLC; model-based testing: every state/operation of the TLC graph, all short behaviours and random walks replayed on the real library with whole-heap comparison"
+HEAP_TECH = ("TLA+ heap model (Heap.tla) explored by TLC; model-based testing: every state/operation of the TLC graph, all short behaviours and random walks replayed on the real "
+             "library with whole-heap comparison; recorded random programs and scripted scenarios on large containers validated by TLC against the same model (HeapTrace.tla; "
+             "slice headers against SliceTrace.tla as a drift-only stage)")
 
 REGISTRY = {}
 _TEXT = {
@@ -120,8 +122,9 @@ VIEW_ASSUME = [
     "numeric concretisations keep every operand and partial result exactly representable; inexact float sums are not judged (fold order is not fixed by C18)",
 ]
 VIEW_NOTE = "Exhaustive over all lists/objects inside the bounds; values are tokens concretised by the harness (identity, power-of-two scaling, extreme monotone maps). Trusted: TLC, the harness's token-to-value maps."
-VIEW_TECH = "TLA+ operators for views/sort/folds (Views.tla) evaluated by TLC on every list/object inside the bounds (PartitionLaw/SortLaw/FoldLaw invariants); expected results replayed against the real methods"
-ENGINES.append({"name": "tlc-views", "path": "spec/Views.tla bin/viewfam.py harness/cmd/vh/views.go", "serves_properties": ["C14", "C17", "C18"],
+VIEW_TECH = ("TLA+ operators for views/sort/folds (Views.tla) evaluated by TLC on every list/object inside the bounds (PartitionLaw/SortLaw/FoldLaw invariants); expected results "
+             "replayed against the real methods; results recorded on lists of up to several thousand elements validated by TLC (ViewsTrace.tla)")
+ENGINES.append({"name": "tlc-views", "path": "spec/Views.tla spec/ViewsTrace.tla bin/viewfam.py harness/cmd/vh/views.go", "serves_properties": ["C14", "C17", "C18"],
                 "kind_free_text": "TLA+ definitions of the typed views, Sort/Reverse and the numeric folds, evaluated by TLC on every container inside the bounds; results compared with the real methods"})
 _VT = {
     "C14": "Every list (<= bound, all kinds, duplicates) and object enumerated by TLC with the per-kind selection computed by the spec; every typed/untyped ForEach/Map/Filter/Reduce/slice/All method is run with free callbacks and compared (order, multiplicity, index, identity, result keys).",
